@@ -606,6 +606,7 @@ func ruleRangeHandler(c *Ctx, prefix string, want map[string]bool) {
 					return // literal of a new record (checked at insert)
 				}
 				counts["expires"]++
+				st.seen["expset"] = true
 				v := ex.Canon(st, x.Val).S
 				if !nowPlus.MatchString(v) {
 					addb("DB.EXPIRY", fmt.Sprintf("the stored expiry at %s is not derived from now + lease time (%s): it can end before the lease just promised", c.P.InstrPos(in), shortName(stripAt(v))))
@@ -631,7 +632,7 @@ func ruleRangeHandler(c *Ctx, prefix string, want map[string]bool) {
 		return len(ms) > 0
 	}
 	checkClock = clockInside
-	nReply, nDrop := 0, 0
+	nReply, nDrop, nGuard := 0, 0, 0
 	ex.Hooks.Exit = func(st *State, in ssa.Instruction) {
 		ret, ok := in.(*ssa.Return)
 		if !ok || len(ret.Results) != 2 {
@@ -655,6 +656,41 @@ func ruleRangeHandler(c *Ctx, prefix string, want map[string]bool) {
 			return
 		}
 		nReply++
+		// a known client answered without touching its stored expiry: the path must have established
+		// stored expiry >= now + lease time, in one of the comparison forms whose polarity is understood
+		if found == 1 && !st.seen["expset"] {
+			nGuard++
+			expU := `time\.Unix\(conv<int64>\(lookup@(?:[\w$]+·)?t\d+\(\$0\.Recordsv4,` + keyRe + `\)#0\.expires\),0\)`
+			np := nowPlus.String()
+			forms := []struct {
+				re   *regexp.Regexp
+				want int
+			}{
+				{regexp.MustCompile(`^\(time\.Time\)\.Before\(` + expU + `,` + np + `\)$`), 0},
+				{regexp.MustCompile(`^\(time\.Time\)\.After\(` + np + `,` + expU + `\)$`), 0},
+				{regexp.MustCompile(`^\(time\.Time\)\.Before\(` + np + `,` + expU + `\)$`), 1},
+				{regexp.MustCompile(`^\(time\.Time\)\.After\(` + expU + `,` + np + `\)$`), 1},
+			}
+			okG := false
+			for _, f := range forms {
+				if v, _ := histFact(st, "bool", f.re); v == f.want {
+					okG = true
+				}
+			}
+			if !okG {
+				seenExp := ""
+				for _, k := range sortedKeys(st.hist) {
+					if strings.Contains(st.hist[k].X, ".expires") {
+						seenExp = st.hist[k].X
+					}
+				}
+				if seenExp == "" {
+					addb("DB.EXPIRY-GUARD", fmt.Sprintf("reply at %s to a known client leaves the stored expiry untouched without having compared it with now + lease time: the stored lease can end before the one just promised", c.P.InstrPos(in)))
+				} else {
+					addb("DB.EXPIRY-GUARD", fmt.Sprintf("reply at %s to a known client leaves the stored expiry untouched under a condition that is not `stored expiry >= now + lease time` as a time comparison (%s): differences, unsigned or narrowed seconds can wrap for a lapsed lease, so the stored lease can end before the one just promised", c.P.InstrPos(in), shortName(stripAt(seenExp))))
+				}
+			}
+		}
 		if st.seen["allocate"] && allocErr != 1 {
 			addb("RANGE.EXHAUST", fmt.Sprintf("a reply is returned at %s although the allocation failed or its error was not checked", c.P.InstrPos(in)))
 		}
@@ -702,6 +738,10 @@ func ruleRangeHandler(c *Ctx, prefix string, want map[string]bool) {
 	if want["C03"] {
 		emit("DB.PERSIST-BEFORE-REPLY", "new allocations and expiry changes are persisted (under the client's hardware address) before any reply is returned")
 		emit("DB.EXPIRY", "every stored expiry is now + lease time")
+		if nGuard == 0 {
+			addb("DB.EXPIRY-GUARD", "no reply path for a known client keeps the stored expiry: shape not recognised")
+		}
+		emit("DB.EXPIRY-GUARD", "a known client is answered without extending its stored expiry only after the time comparison stored expiry >= now + lease time held")
 		emit("RANGE.LEASETIME", "every reply carries option 51 built from the configured lease time: what is promised is what was stored")
 	}
 }
